@@ -191,6 +191,57 @@ def S3.listRequests (ps : Nat) (s : S3) (pfx : Name) : Nat :=
   let keys := s.keys.filter (fun k => pfx.isPrefixOf k)
   s3Requests (s3Serve ps keys) (keys.length + 1) ⟨Gen.s3LoopStartsTruncated, none⟩
 
+/-! ## S3 and the wall clock
+
+Every S3 request carries three things that depend on the time: the `x-amz-date` header, the date in the credential scope, and
+the signing key (derived from a date).  `_prepare_request` reads the clock once per request and derives all three from that
+one reading (`s3Stamp`); the adapter object keeps nothing time-dependent between requests.  The service (`s3Accepts`)
+re-derives the signing key from the credential-scope date, so the signature matches iff the client's key was derived from the
+same date; it insists that the scope date is the date of `x-amz-date`; and it rejects a request whose `x-amz-date` is more
+than `skew` seconds (S3: 900) away from its own clock.  Times are whole seconds since the epoch, UTC. -/
+abbrev Time := Nat
+
+/-- the UTC calendar day a time falls on (days since the epoch) -/
+def utcDay (t : Time) : Nat := t / 86400
+
+/-- what the SigV4 material of one request says about time -/
+structure Stamp where
+  amz : Time        -- `x-amz-date`
+  scopeDay : Nat    -- the date in the credential scope
+  keyDay : Nat      -- the date the signing key was derived from
+deriving Repr, DecidableEq
+
+/-- `_prepare_request` at clock reading `now` -/
+def s3Stamp (now : Time) : Stamp := { amz := now, scopeDay := utcDay now, keyDay := utcDay now }
+
+/-- two clock readings are at most `skew` seconds apart -/
+def withinSkew (skew : Nat) (a b : Time) : Bool := decide (a ≤ b + skew) && decide (b ≤ a + skew)
+
+/-- the service's verdict on the time-dependent part of a request, its own clock showing `server` -/
+def s3Accepts (skew : Nat) (server : Time) (st : Stamp) : Bool :=
+  decide (st.scopeDay = utcDay st.amz) && decide (st.keyDay = st.scopeDay) && withinSkew skew st.amz server
+
+/-- an operation together with the two clocks: the adapter's when it prepares the request(s) of the call, the service's when
+they arrive.  Nothing is assumed about successive readings (a clock may stand still, jump days ahead, or step back). -/
+structure Timed where
+  client : Time
+  server : Time
+  op : Op
+deriving Repr, DecidableEq
+
+/-- one adapter call at the given clock readings: a request the service rejects for its time stamp is answered 403, which the
+adapter does not retry (`giveup=_check_403`) -/
+def S3.stepT (skew ps : Nat) (s : S3) (t : Timed) : S3 × Ret :=
+  if s3Accepts skew t.server (s3Stamp t.client) then S3.step ps s t.op else (s, .error .forbidden)
+
+/-- a history of one long-lived adapter object under a clock schedule -/
+def S3.runT (skew ps : Nat) : S3 → List Timed → S3 × List Ret
+  | s, [] => (s, [])
+  | s, t :: ts =>
+    let r := S3.stepT skew ps s t
+    let rest := S3.runT skew ps r.1 ts
+    (rest.1, r.2 :: rest.2)
+
 /-! ## B2 -/
 inductive Ver
   | up (d : Bytes)
